@@ -47,13 +47,21 @@ Definition frame_view (v : version) (fr : frames) (i : nat) : outcome fview :=
            | None => Panic 603
            end
          else Ok None) ;;
+  (* let (start, end) = self.item_offset.as_ref().unwrap().start_end(i);       -- 604 / index assertion 601
+     (start..end).map(|k| self.item.as_ref().unwrap().transpose_one(k, version)).collect()
+     self.item is unwrapped once per item of the frame, inside the loop: on a frame without items (start >= end) an absent
+     item column set goes unnoticed; on a frame with items it is the first thing that fails (604), before any index error
+     of a row k beyond the item columns (601) *)
   its <- (if vgte v 3 0 then
-            match f_item_off fr, f_item fr with
-            | Some offs, Some items =>
+            match f_item_off fr with
+            | Some offs =>
                 a <- at_row offs i ;; b <- at_row offs (S i) ;;
-                rs <- all_ok (map (fun k => at_row items k) (seq (Z.to_nat a) (Z.to_nat b - Z.to_nat a))) ;;
+                rs <- all_ok (map (fun k => match f_item fr with
+                                            | Some items => at_row items k
+                                            | None => Panic 604
+                                            end) (seq (Z.to_nat a) (Z.to_nat b - Z.to_nat a))) ;;
                 Ok (Some (map (row_vals v "Item") rs))
-            | _, _ => Panic 604
+            | None => Panic 604
             end
           else Ok None) ;;
   Ok {| fv_id := id; fv_chars := ports; fv_start := st; fv_end := en; fv_items := its |}.
@@ -165,12 +173,21 @@ Definition arrow_frame (v : version) (fr : frames) : outcome atree :=
     | Some srows =>
       st <- arrow_struct v "Start" "start" srows None ;;
       if vgte v 3 0 then
-        match f_end fr, f_item_off fr, f_item fr with
-        | Some erows, Some offs, Some items =>
-            en <- (if vgte v 3 7 then x <- arrow_struct v "End" "end" erows None ;; Ok [x] else Ok []) ;;
+        (* self.end is touched (unwrapped) only under version.gte(3, 7): before, the End record has no column *)
+        en <- (if vgte v 3 7 then
+                 match f_end fr with
+                 | Some erows => x <- arrow_struct v "End" "end" erows None ;; Ok [x]
+                 | None => Panic 707
+                 end
+               else Ok []) ;;
+        match f_item fr with                                            (* self.item.unwrap() *)
+        | Some items =>
             it <- arrow_struct v "Item" "item" items None ;;
-            Ok (AStruct "frame" n None (base ++ [st] ++ en ++ [AList "item" n "item" offs it])%list)
-        | _, _, _ => Panic 707
+            match f_item_off fr with                                    (* self.item_offset.unwrap() *)
+            | Some offs => Ok (AStruct "frame" n None (base ++ [st] ++ en ++ [AList "item" n "item" offs it])%list)
+            | None => Panic 707
+            end
+        | None => Panic 707
         end
       else Ok (AStruct "frame" n None (base ++ [st])%list)
     end
